@@ -5,6 +5,7 @@ package main
 import (
 	"encoding/json"
 	"fmt"
+	"strings"
 
 	"github.com/arr-ai/arrai/pkg/fu"
 	"github.com/arr-ai/arrai/rel"
@@ -181,6 +182,90 @@ func init() {
 		rep.Rule = "LibLaws spec: //bits.mask and //bits.set over subsets of 0..5 and numbers 0..70, //dict and //tuple over all tuples of three names and four values, //rel.union over all sets of six collections; TLC checks that the definitions are inverse and emits every input with its expected output, which the real function must return."
 		rep.Exhaust = true
 		runTLCToPool(rep, rc, []*TLCRun{{Module: "LibLaws", Cfg: "LibLaws.cfg"}}, &Pool{Handler: "liblaws"})
+		return rep.Finish()
+	}
+}
+
+// X04 (beyond the listed properties): the documented whitespace rules of expression strings.
+func init() {
+	exprSrc := map[string]string{"E": `${""}`, "X": `${"X"}`, "L": `${[1, 2]::\i}`, "Z": `${[]::\i}`, "C": `${[1, 2]::,:;}`}
+	handlers["exprstring"] = func(raw json.RawMessage) *Obs {
+		var c struct {
+			Lines []struct {
+				Ind int      `json:"ind"`
+				Its []string `json:"its"`
+			} `json:"lines"`
+			Out []string `json:"out"`
+		}
+		if err := json.Unmarshal(raw, &c); err != nil {
+			return &Obs{Fails: []Fail{{Sig: Signature{Symptom: "bad-case"}, Detail: err.Error()}}}
+		}
+		var sb strings.Builder
+		sb.WriteString("$\"\n")
+		shape := ""
+		for _, l := range c.Lines {
+			sb.WriteString(strings.Repeat(" ", l.Ind))
+			shape += fmt.Sprint(l.Ind)
+			for _, it := range l.Its {
+				shape += it
+				if e, is := exprSrc[it]; is {
+					sb.WriteString(e)
+				} else {
+					sb.WriteString(it)
+				}
+			}
+			sb.WriteString("\n")
+			shape += "/"
+		}
+		sb.WriteString("\"")
+		src := sb.String()
+		want := strings.Join(c.Out, "")
+		obs := &Obs{NonTrivial: 1, Evals: 1, Sample: src}
+		o := evalSource(src)
+		got := ""
+		switch {
+		case o.Kind() != "value":
+			got = "<" + o.Kind() + "> " + trunc(o.String(), 100)
+		default:
+			if s, is := o.V.(rel.String); is {
+				got = s.String()
+			} else if !o.V.IsTrue() {
+				got = ""
+			} else {
+				got = "<not a string> " + reprSafe(o.V)
+			}
+		}
+		if got != want {
+			// the class of the template: which items stand alone on a line, which indents occur
+			cls := ""
+			for _, l := range c.Lines {
+				switch {
+				case len(l.Its) == 0:
+					cls += "blank,"
+				case len(l.Its) == 1 && exprSrc[l.Its[0]] != "":
+					cls += "lone-" + l.Its[0] + ","
+				default:
+					cls += "mixed,"
+				}
+			}
+			msg := "other"
+			squeeze := func(s string) string { return strings.Join(strings.Fields(s), " ") }
+			switch {
+			case strings.TrimRight(want, "\n") == got:
+				msg = "trailing-newline-lost"
+			case squeeze(want) == squeeze(got):
+				msg = "indent-differs"
+			}
+			obs.Fails = append(obs.Fails, Fail{Sig: Signature{Op: "xstr", ShapeL: cls, Symptom: "mismatch", Msg: msg},
+				Detail: fmt.Sprintf("%s\ndocumented rules give %q\nthe implementation gives %q", src, want, got), Source: src})
+		}
+		return obs
+	}
+	props["X04"] = func(rc *RunCtx) int {
+		rep := NewReport("X04", rc.Tier, rc.Seed, "model_checking")
+		rep.Rule = "ExprString spec: every template of up to 2 (thorough: 3) lines, each an indent of 0 / 2 / 4 spaces and up to two items (text, ${\"\"}, ${\"X\"}, ${[1,2]::\\i}, ${[]::\\i}, ${[1,2]::,:;}), rendered by the documented whitespace rules (leading newline, base indent, trailing newline, omitted lines, \\i, extra) and compared with the string the real compiler and //str.expand produce."
+		rep.Exhaust = true
+		runTLCToPool(rep, rc, []*TLCRun{{Module: "ExprString", Cfg: tierPick(rc.Tier, "ExprString_quick.cfg", "ExprString_thorough.cfg")}}, &Pool{Handler: "exprstring"})
 		return rep.Finish()
 	}
 }
